@@ -74,6 +74,8 @@ def run(facts_path):
                                                'ok': ok, 'detail': why})
             except AnalysisIncomplete as e:
                 out['notes'].append(f"{key}: not analysable ({str(e)[:160]}); undecided here")
+            except Exception as e:
+                out['notes'].append(f"{key}: the stage could not read the exits ({type(e).__name__}: {str(e)[:120]}); undecided here")
     # one record per (root, verdict)
     seen, recs = set(), []
     for r in out['records']:
